@@ -45,6 +45,8 @@ def declare(spec):
     spec.ghost('sentlog', List(REPEV))        # one entry per reply handed to the ROUTER stream
     spec.ghost('dcb_flag', Dict(INT, BOOL))   # future id -> send_resp flag of the registered done-callback
     spec.ghost('dcb_mid', Dict(INT, VAL))
+    spec.ghost('val_calls', INT)     # C11: number of cmd.validate calls that returned normally
+    spec.ghost('exec_calls', INT)    # C11: number of cmd.execute calls started
     spec.handlers['zmq.utils.jsonapi:dumps'] = h_json_dumps
     spec.consts['zmq:SNDMORE'] = 2
     spec.method_handlers['add_done_callback'] = h_add_done_callback
@@ -71,8 +73,8 @@ def declare(spec):
                            'every concrete Command.validate contract refines this'))
     spec.add(Contract('$AnyCommand.execute', params={'self': Ref('AnyCommand'), 'arbiter': Ref('Arbiter'), 'props': VAL},
                       ret=VAL, trusted=True, modifies=['*'],
-                      ensures=["same_ghost('sentlog', 'dcb_flag', 'dcb_mid')", "same_field('Controller.commands', 'Controller.stream', 'Controller.arbiter')"],
-                      raises={'*': ["same_ghost('sentlog', 'dcb_flag', 'dcb_mid')", "same_field('Controller.commands', 'Controller.stream', 'Controller.arbiter')"]},
+                      ensures=["same_ghost('sentlog', 'dcb_flag', 'dcb_mid', 'val_calls', 'exec_calls')", "same_field('Controller.commands', 'Controller.stream', 'Controller.arbiter')"],
+                      raises={'*': ["same_ghost('sentlog', 'dcb_flag', 'dcb_mid', 'val_calls', 'exec_calls')", "same_field('Controller.commands', 'Controller.stream', 'Controller.arbiter')"]},
                       note='any registered command: arbitrary effect on the arbiter, any result or exception; it '
                            'does not itself write to the control stream nor touch the controller'))
     declare_dispatch_later = True
@@ -209,7 +211,22 @@ def declare_dispatch(spec):
             "dcb_flag[f] != old(dcb_flag)[f]), not dcb_flag[f])))" % NOW,
             RKEEP,
             "same_field('Controller.commands', 'Controller.stream', 'Controller.arbiter')",
+            # C11: a request refused before execution (not JSON, not an object, unknown command, or refused by the
+            # command's validate) changes nothing but the reply log: execute is started at most once, only after
+            # validate accepted the properties (callsite[validated-first]), and when it is not started the whole
+            # heap and every ghost except the reply bookkeeping is as before
+            ('execute-at-most-once', 'exec_calls <= old(exec_calls) + 1 and exec_calls >= old(exec_calls)'),
+            ('refused-before-execute-changes-nothing',
+             "implies(exec_calls == old(exec_calls), same_heap(except_=['sentlog', 'clock', 'val_calls', "
+             "'$vobj.map', '$vlist.seq', '$vobj.$alloc', '$vlist.$alloc']))"),
+            ('invalid-json-or-unknown-command-not-executed',
+             "implies(%s or not is_obj(%s) or not ufn('jhas', BOOL, %s, 'command') or "
+             "not is_str(ufn('jget', VAL, %s, 'command')) or "
+             "not (lower(as_str(ufn('jget', VAL, %s, 'command'))) in self.commands), exec_calls == old(exec_calls))"
+             % (BAD, J, J, J, J)),
         ],
+        call_requires={'execute': [('validated-first', 'val_calls == old(val_calls) + 1 and exec_calls == old(exec_calls)')]},
+        ghost_at={'validate': ['val_calls = val_calls + 1'], 'execute!': ['exec_calls = exec_calls + 1']},
         modifies=['*']))
 
 
